@@ -215,6 +215,24 @@ def law_timestamp_of_built(run, case):
         _fail(run, case, 'timestamp-of-built-wrong',
               'datetime(%r, %d min).timestamp = %r' % (s, o, got))
         return
+    # the same instant whatever way the offset is given (or left out: UTC)
+    alt = _get(run, case, 'timestamp-of-built',
+               '[datetime($s).timestamp, datetime($s).offset.microseconds, '
+               'datetime($s, offset => timespan(minutes => $o)).timestamp, '
+               'datetime($s, offset => timespan(minutes => $o)) = '
+               'datetime($s, timespan(minutes => $o)), '
+               'datetime(timestamp => $s).timestamp]', s=s, o=o)
+    if alt is None:
+        return
+    tol = 1e-6 + 2 * ulp(s)
+    if not all(isinstance(alt[i], (int, float)) and abs(alt[i] - s) <= tol
+               for i in (0, 2, 4)) or alt[1] != 0 or alt[3] is not True:
+        _fail(run, case, 'timestamp-of-built-wrong',
+              '[datetime(s).timestamp, datetime(s).offset.us, datetime(s, '
+              'offset => o).timestamp, datetime(s, offset => o) = '
+              'datetime(s, o), datetime(timestamp => s).timestamp] with '
+              's=%r, o=%d min: %r' % (s, o, list(alt)))
+        return
     d = _get(run, case, 'built-from-timestamp',
              'datetime($s, timespan(minutes => $o))', s=s, o=o)
     if d is None:
@@ -369,6 +387,20 @@ def law_compare(run, case):
             for b in bad[:1]),
             '%s -> %r, expected %r (instants %d, %d)' % (
                 text, list(got), exp, i1, i2))
+        return
+    # whatever orders datetimes orders them as instants
+    text = ('let(a => %s, b => %s) -> [max($a, $b), min($a, $b), '
+            '[$a, $b].max(), [$b, $a].min(), [$a, $b].orderBy($).last(), '
+            '[$b, $a].orderByDescending($).last()]' % (x1, x2))
+    got = _get(run, case, 'compare', text, **binds)
+    if got is None:
+        return
+    hi, lo = max(i1, i2), min(i1, i2)
+    exp = [hi, lo, hi, lo, hi, lo]
+    ins = [to_us(g) if isinstance(g, dtm.datetime) else None for g in got]
+    if ins != exp:
+        _fail(run, case, 'compare-ord',
+              '%s -> instants %r, expected %r' % (text, ins, exp))
 
 
 def law_units(run, case):
@@ -613,6 +645,7 @@ span = st.tuples(
 stamps = st.one_of(
     st.integers(-50000000000, 240000000000),
     st.integers(-10 ** 5, 10 ** 5),
+    st.integers(1, 9999),            # (numbers that could be years)
     st.floats(-5e10, 2.4e11, allow_nan=False),
     st.floats(-1e6, 1e6, allow_nan=False),
     st.sampled_from([0, 1, -1, 0.5, -0.5, 2 ** 31, 1e9 + 0.000001,
